@@ -45,29 +45,30 @@ def _h(names, kind, text, **kw):
 _BYTES = {}
 # (A) value -> bytes: the produced bytes MEAN the value (unsigned / two's complement), per codec and sign
 _BYTES.update(_h(['vk_int_bytes_to_small_le', 'vk_int_bytes_to_small_be', 'vk_int_bytes_to_small_sle_pos',
-                  'vk_int_bytes_to_small_sle_neg', 'vk_int_bytes_to_small_sbe_pos', 'vk_int_bytes_to_small_sbe_neg'],
+                  'vk_int_bytes_to_small_sle_neg'],
                  'complete', 'every DoubleWord (the whole RefSmall domain), the stated codec and sign'))
 _BYTES.update(_h(['vk_int_bytes_to_large3_le', 'vk_int_bytes_to_large3_be', 'vk_int_bytes_to_large3_sle_pos',
-                  'vk_int_bytes_to_large3_sle_neg', 'vk_int_bytes_to_large3_sbe_pos', 'vk_int_bytes_to_large3_sbe_neg'],
+                  'vk_int_bytes_to_large3_sle_neg'],
                  'bounded', _B3 + ': the 3-word half'))
-# be == reversed le
-_BYTES.update(_h(['vk_int_bytes_rev_small_pos', 'vk_int_bytes_rev_small_neg'], 'complete', 'every DoubleWord'))
-_BYTES.update(_h(['vk_int_bytes_rev_large3_pos', 'vk_int_bytes_rev_large3_neg'], 'bounded', _B3 + ': the 3-word half'))
+# to_signed_be_bytes (Vec::insert(0, ..) on a symbolic length is out of reach): literal top word, symbolic low words;
+# meaning of the bytes + be == reversed le
+_BYTES.update(_h(['vk_int_bytes_sbe_ctop_pos', 'vk_int_bytes_sbe_ctop_neg_a', 'vk_int_bytes_sbe_ctop_neg_b'], 'bounded',
+                 '3-word magnitudes: two fully symbolic low words, top word from the literal palette in the harness'))
 # (B) bytes -> value on arbitrary byte strings
 _BYTES.update(_h(['vk_int_bytes_from_le_0_16', 'vk_int_bytes_from_be_0_16', 'vk_int_bytes_from_sle_0_16',
                   'vk_int_bytes_from_sbe_0_16'], 'complete',
                  'every byte string of length 0..=16 (the whole fast path), one literal length at a time'))
 _BYTES.update(_h(['vk_int_bytes_from_le_17_25', 'vk_int_bytes_from_be_17_25', 'vk_int_bytes_from_sle_17_25',
                   'vk_int_bytes_from_sbe_17_25'], 'bounded', 'every byte string of length 17..=25'))
-# (C) composition on a concrete palette
+# (C) composition on a concrete palette (incl. to_signed_be_bytes of 1..=2 word values)
 _BYTES.update(_h(['vk_int_bytes_roundtrip_concrete_large', 'vk_int_bytes_roundtrip_concrete_small'], 'bounded',
-                 '9 concrete values at word / byte boundaries (-(2^128), -(2^184), 2^191, ...)'))
-# quick tier: the negative signed forms (where the sign-byte logic lives), one unsigned form, the parsers;
-# the remaining instances repeat the same code with the other endianness / sign
-for _n in ['vk_int_bytes_to_small_be', 'vk_int_bytes_to_small_sle_pos', 'vk_int_bytes_to_small_sbe_pos',
-           'vk_int_bytes_to_large3_be', 'vk_int_bytes_to_large3_sle_pos', 'vk_int_bytes_to_large3_sbe_pos',
-           'vk_int_bytes_to_large3_sbe_neg', 'vk_int_bytes_rev_small_pos', 'vk_int_bytes_rev_large3_pos',
-           'vk_int_bytes_rev_large3_neg', 'vk_int_bytes_from_le_17_25', 'vk_int_bytes_from_be_17_25',
+                 '12 concrete values at word / byte boundaries (-(2^128), -(2^184), 2^191, -128, 128, -(2^64), ...)'))
+# quick tier: the signed little-endian forms (where the sign-byte logic lives), the unsigned forms of 1..=2 words, the
+# signed parsers, the be palette for negative numbers; the remaining instances repeat the same code with the other
+# endianness / sign
+for _n in ['vk_int_bytes_to_small_sle_pos', 'vk_int_bytes_to_large3_be', 'vk_int_bytes_to_large3_sle_pos',
+           'vk_int_bytes_sbe_ctop_pos', 'vk_int_bytes_sbe_ctop_neg_a',
+           'vk_int_bytes_from_le_0_16', 'vk_int_bytes_from_le_17_25', 'vk_int_bytes_from_be_17_25',
            'vk_int_bytes_from_sbe_17_25', 'vk_int_bytes_roundtrip_concrete_large']:
     _BYTES[_n]['tier'] = 'thorough'
 
